@@ -82,6 +82,46 @@ pub fn wrong_type_elem(rng: &mut Rng) -> Elem {
     }
 }
 
+/// One special run: more than 65535 unread items in the growable queue, then the count and
+/// read-back queries.
+fn big_queue_trace(seed: u64, run: u64) -> Trace {
+    let mut rng = Rng::new(mix(seed, "C13-big", run));
+    let cfg = Config {
+        queue: QueueCfg::Vec,
+        controllers: 1,
+        tree: TreeDesc {
+            mandated: true,
+            app: vec![],
+            fixed: None,
+        },
+        plain488: false,
+        no_mav: false,
+    };
+    let mut t = base_trace("C13", seed, run, "big_queue", cfg.clone());
+    let tc = TreeCtx::new(&cfg.tree);
+    let n = 65_530 + rng.below(5000) as usize;
+    for k in 0..n {
+        t.steps.push(Step::Q(QOp::Push(ErrSpec {
+            code: 100 + (k % 30000) as i16,
+            ext: None,
+            msg: (k % 6) as u8,
+        })));
+    }
+    for c in [Contrib::SystErrCount, Contrib::SystErrNext, Contrib::SystErrCount] {
+        let u = contrib_unit(&mut rng, &tc, c, true, vec![], &[], true);
+        t.steps.push(Step::Send(SendStep {
+            ctl: 0,
+            fmt: FmtCfg::Vec,
+            msg: Msg {
+                units: vec![u],
+                end: B::new(),
+            },
+            corrupt: vec![],
+        }));
+    }
+    t
+}
+
 pub struct HistGen<'a> {
     pub rng: &'a mut Rng,
     pub tc: TreeCtx,
@@ -309,11 +349,16 @@ impl Prop for C13 {
             "response_buffer_exhausted_in_queue_query",
             "successful_query_with_failing_selftest",
             "no_error_item_queued_behind_another",
+            "count_of_more_than_65535_items",
+            "formatter_fails_in_message_start",
         ];
         v.into_iter().map(String::from).collect()
     }
 
     fn gen(&self, seed: u64, run: u64, tier: Tier) -> Trace {
+        if run == 7 && tier != Tier::Tiny {
+            return big_queue_trace(seed, run);
+        }
         let mut rng = Rng::new(mix(seed, "C13", run));
         let deep = tier == Tier::Thorough && run % 16 == 15;
         // one tree per group of runs (bounded leak of real trees is irrelevant: model only here)
@@ -325,6 +370,7 @@ impl Prop for C13 {
             controllers,
             tree,
             plain488: false,
+            no_mav: false,
         };
         let mut t = base_trace("C13", seed, run, "history", cfg.clone());
         let tc = TreeCtx::new(&cfg.tree);
@@ -344,6 +390,7 @@ impl Prop for C13 {
             tst_code: 0,
             outq: vec![false; controllers as usize],
             plain488: false,
+            no_mav: false,
         };
         // swarm weights
         let w_ok = *rng.pick(&[1u32, 3, 6]);
@@ -501,6 +548,15 @@ impl Prop for C13 {
                 msg,
                 corrupt,
             };
+            // F6: the interface's output formatter refuses the new message right at message_start
+            // (for example because the previous response was never read)
+            if s.corrupt.is_empty() && g.rng.chance(1, 40) {
+                s.fmt = FmtCfg::Faulty {
+                    at: 0,
+                    err: gen_err_spec(g.rng),
+                    persistent: g.rng.chance(1, 2),
+                };
+            } else
             // F5: a bounded response buffer whose capacity is near the response length (so that
             // exhaustion can strike at the terminator or inside the last unit)
             if s.corrupt.is_empty() && g.rng.chance(1, 6) {
@@ -559,6 +615,30 @@ fn neutral_bytes(b: &[u8]) -> bool {
 }
 
 fn check_send(world: &mut World, before: &ModelState, i: usize, s: &SendStep, o: &SendObs, stats: &mut Stats, out: &mut Vec<Finding>) {
+    if before.queue.items.len() > 65535 {
+        stats.probe("count_of_more_than_65535_items");
+    }
+    if let FmtCfg::Faulty { at: 0, err, .. } = &s.fmt {
+        // nothing of the message was executed: the device changes exactly by the injected error
+        if o.fire.is_some() && s.corrupt.is_empty() {
+            stats.probe("formatter_fails_in_message_start");
+            stats.fault("F6_formatter_call_fails");
+            let injected = spec_obs(err);
+            if o.result != Err(injected.clone()) {
+                out.push(Finding::new(
+                    "C13.query_result",
+                    "formatter_failure_at_message_start_not_returned",
+                    i,
+                    format!("{}: the formatter refused message_start with {:?} but run returned {:?}", describe_msg(s), injected, o.result),
+                ));
+                return;
+            }
+            let mut exp = before.clone();
+            exp.record_error(&injected);
+            compare_state(&exp, &world.snap(), i, s, o, "formatter failed in message_start", out);
+        }
+        return;
+    }
     let pred = predict(&world.root, before, s, Reading::Condition);
     let after = world.snap();
     let qfull_before = before.queue.cap.map(|c| before.queue.items.len() >= c).unwrap_or(false);
